@@ -15,9 +15,9 @@ theorem pin_src_capture_exit : Generated.src_capture_exit = "if self.enabled:\n 
 
 theorem pin_src_capture_orig : Generated.src_capture_orig = "self.orig_stdout = sys.stdout" := rfl
 
-theorem pin_src_ppc_enter : Generated.src_ppc_enter = "if self.index < 0:\n    self.index = len(sys.path) + self.index + 1\nsys.path.insert(self.index, self.dpath)" := rfl
+theorem pin_src_ppc_enter : Generated.src_ppc_enter = "if self.index < 0:\n    self.index = max(0, len(sys.path) + self.index + 1)\nsys.path.insert(self.index, self.dpath)" := rfl
 
-theorem pin_src_ppc_exit_skeleton : Generated.src_ppc_exit_skeleton = "need_recover = False\nif len(sys.path) <= self.index\n  need_recover = True\nelse\n  if sys.path[self.index] != self.dpath\n    need_recover = True\nif need_recover\n  try\n    real_index = sys.path.index(self.dpath)\n  except ValueError\n    raise RuntimeError\n  else\n    warnings.warn\n    sys.path.pop(real_index)\nelse\n  sys.path.pop(self.index)" := rfl
+theorem pin_src_ppc_exit_skeleton : Generated.src_ppc_exit_skeleton = "need_recover = False\nif len(sys.path) <= self.index\n  need_recover = True\nelse\n  if sys.path[self.index] != self.dpath\n    need_recover = True\nif need_recover\n  try\n    real_index = sys.path.index(self.dpath)\n  except ValueError\n    raise RuntimeError\n  else\n    sys.path.pop(real_index)\n    warnings.warn\nelse\n  sys.path.pop(self.index)" := rfl
 
 theorem pin_src_custom_import_modpath : Generated.src_custom_import_modpath = "try\n  with PythonPathContext(dpath, index=index)\n    module = import_module_from_name(modname)\nexcept Exception\n  raise RuntimeError\nreturn module" := rfl
 
